@@ -35,6 +35,7 @@ import (
 	"sync"
 	"testing"
 	"time"
+	"unsafe"
 
 	"github.com/Basekick-Labs/msgpack/v6"
 	"github.com/rs/zerolog"
@@ -46,12 +47,16 @@ type verifWalOp struct {
 	K    string                   `json:"k"`    // raw | meta | rows
 	DB   string                   `json:"db"`   // hex (meta)
 	P    string                   `json:"p"`    // hex (raw, meta)
+	Scr  string                   `json:"scr"`  // hex: what the caller writes into its payload buffer right after the call (default 'Z's)
+	N    int                      `json:"n"`    // > 0: the payload is N bytes 0x90 0x41 0x41 .. instead of P (size-only probes)
 	Rows []map[string]interface{} `json:"rows"` // rows
 }
 
 type verifWalLog struct {
 	ID      int          `json:"id"`
 	MaxSize int64        `json:"max_size"` // 0 = default (no rotation in a test)
+	Hold    bool         `json:"hold"`     // hold the writer goroutine off the queue while appending (see below)
+	NoFiles bool         `json:"nofiles"`  // size-only probe: report file sizes and ReadAll entry counts instead of bytes
 	Ops     []verifWalOp `json:"ops"`
 }
 
@@ -91,6 +96,8 @@ type verifWalLogOut struct {
 	Hook    []verifWalHook `json:"hook"`
 	Errs    []string       `json:"errs"`
 	Dropped int64          `json:"dropped"`
+	Sizes   []int          `json:"sizes"`  // nofiles: size of every file
+	Counts  []int          `json:"counts"` // nofiles: number of entries ReadAll returns for every file (-1 error, -2 panic)
 }
 
 type verifWalEntry struct {
@@ -264,6 +271,16 @@ func verifEntryObs(e *Entry) verifWalEntry {
 
 // ---- helpers -----------------------------------------------------------------------------
 
+// verifVolatile returns a string whose bytes live in a caller-owned buffer (fiber's header and
+// body values alias the connection buffer in production); the harness scribbles over it later.
+func verifVolatile(s string) (string, []byte) {
+	if len(s) == 0 {
+		return "", nil
+	}
+	b := []byte(s)
+	return unsafe.String(&b[0], len(b)), b
+}
+
 func verifUnhex(t *testing.T, s string) []byte {
 	b, err := hex.DecodeString(s)
 	if err != nil {
@@ -392,11 +409,29 @@ func TestVerifWal(t *testing.T) {
 		if err != nil {
 			t.Fatalf("NewWriter: %v", err)
 		}
-		w.SetReplicationHook(func(e *ReplicationEntry) {
-			lo.Hook = append(lo.Hook, verifWalHook{TS: e.TimestampUS, P: hex.EncodeToString(e.Payload)})
-		})
+		// Two ways of calling the writer.  Hook mode: the replication hook reports timestamp and
+		// payload of every accepted append.  Hold mode (no hook, so that Append* never takes w.mu):
+		// the writer goroutine is kept off the queue (w.mu held) while the caller appends and - as
+		// the ingest path does with the recycled request body - REUSES ITS BUFFERS; the timestamps
+		// are then read back from the files.  In both modes every payload and database name lives
+		// in a buffer owned by the harness that is overwritten as soon as the call has returned:
+		// the model has value semantics, so the writer must have copied what it keeps.
+		if !lg.Hold {
+			w.SetReplicationHook(func(e *ReplicationEntry) {
+				lo.Hook = append(lo.Hook, verifWalHook{TS: e.TimestampUS, P: hex.EncodeToString(e.Payload)})
+			})
+		} else {
+			w.mu.Lock()
+		}
+		var sizes []int // on-disk payload size of every accepted append (hold mode)
 		for _, op := range lg.Ops {
 			var err error
+			buf := append([]byte(nil), verifUnhex(t, op.P)...)
+			if op.N > 0 {
+				buf = bytes.Repeat([]byte{0x41}, op.N)
+				buf[0] = 0x90
+			}
+			dbs, dbb := verifVolatile(string(verifUnhex(t, op.DB)))
 			func() {
 				defer func() {
 					if p := recover(); p != nil {
@@ -405,24 +440,44 @@ func TestVerifWal(t *testing.T) {
 				}()
 				switch op.K {
 				case "raw":
-					err = w.AppendRaw(verifUnhex(t, op.P))
+					err = w.AppendRaw(buf)
 				case "meta":
-					err = w.AppendRawWithMeta(string(verifUnhex(t, op.DB)), verifUnhex(t, op.P))
+					err = w.AppendRawWithMeta(dbs, buf)
 				case "rows":
 					err = w.Append(op.Rows)
 				default:
 					t.Fatalf("unknown op kind %q", op.K)
 				}
 			}()
+			// the caller moves on to its next request
+			scr := verifUnhex(t, op.Scr)
+			for i := range buf {
+				if i < len(scr) {
+					buf[i] = scr[i]
+				} else {
+					buf[i] = 'Z'
+				}
+			}
+			for i := range dbb {
+				dbb[i] = 'Z'
+			}
 			if err != nil {
 				lo.Errs = append(lo.Errs, err.Error())
 			} else {
 				lo.Errs = append(lo.Errs, "")
+				n := len(buf)
+				if op.K == "meta" {
+					n += 3 + len(dbb)
+				}
+				sizes = append(sizes, n)
 			}
-			if lg.MaxSize > 0 {
+			if lg.MaxSize > 0 && !lg.Hold {
 				// rotation names its file after the wall clock (ns); keep two rotations apart
 				time.Sleep(20 * time.Microsecond)
 			}
+		}
+		if lg.Hold {
+			w.mu.Unlock()
 		}
 		if err := w.Close(); err != nil {
 			t.Fatalf("Close: %v", err)
@@ -435,8 +490,29 @@ func TestVerifWal(t *testing.T) {
 			if err != nil {
 				t.Fatal(err)
 			}
-			lo.Files = append(lo.Files, hex.EncodeToString(b))
 			lo.Names = append(lo.Names, filepath.Base(n))
+			if lg.NoFiles {
+				lo.Sizes = append(lo.Sizes, len(b))
+				es, _, st := verifReadAll(n)
+				c := len(es)
+				if st == "err" {
+					c = -1
+				} else if st == "panic" {
+					c = -2
+				}
+				lo.Counts = append(lo.Counts, c)
+				continue
+			}
+			lo.Files = append(lo.Files, hex.EncodeToString(b))
+			if lg.Hold {
+				// timestamps of the accepted appends, in order, at the offsets their sizes imply
+				o := WALFileHeaderSize
+				for len(sizes) > 0 && o+WALEntryHeaderSize+sizes[0] <= len(b) {
+					lo.Hook = append(lo.Hook, verifWalHook{TS: binary.BigEndian.Uint64(b[o+4 : o+12])})
+					o += WALEntryHeaderSize + sizes[0]
+					sizes = sizes[1:]
+				}
+			}
 		}
 		out.Logs = append(out.Logs, lo)
 	}
